@@ -5,11 +5,11 @@ package main
 func init() {
 	register(&PropDef{
 		ID: "C20", Level: "exploration", Quick: 12000, Thorough: 300000, QuickCap: 110,
-		Rule: "four sub-workloads drawn per run. bt-single: 10-60 requests to every Bigtable RPC perturbed at structure level (absent sub-messages, unset oneofs, empty/unknown names, negative and extreme numbers, invalid filters up to depth 3, inverted ranges) and at byte level (bit flips and truncation of the serialized request, kept only if it still parses; read-only RPCs and the scratch table only), optionally with a failing stream Send. bt-mix: 3 tasks from {delete+re-create table, scan, mutate, drop/create family, fetch schema, DropRowRange prefix/all} on one table plus a bystander scanning an untouched table, under the seeded scheduler. gcs-single: 10-70 HTTP requests over 25 path shapes x 7 methods x query/headers/body perturbations (truncated multipart and batch bodies, junk Content-Range, unknown upload ids, non-gzip data marked gzip), optionally with a fail-stop store error injected before the n-th store call; then a batch of 1-5 GETs whose sub-responses must equal the standalone responses. gcs-mix: listing while deleting, two chunks of one resumable upload, bucket creation while listing. Oracle: no panic, gRPC status / well-formed HTTP error (JSON body carrying the same code when it declares JSON), no deadlock/livelock/hang, afterwards valid probe requests succeed, kept data reads back unchanged and the lock map is empty; distinct = hash of (mode, request kinds, outcomes); non-trivial = every run",
-		Real: []string{"every bttest RPC handler and validation path, every gcsemu endpoint incl. batch, multipart, range and URL parsing, both stores, all engines", "net/http request parser and mux; protobuf (un)marshalling"},
-		Stub: []string{"gRPC and HTTP connections (a handler panic propagates to the simulator instead of killing the process / dropping the connection)", "cooperative mutexes; Store/Storage seams for yields and injected store errors"},
+		Rule:   "four sub-workloads drawn per run. bt-single: 10-60 requests to every Bigtable RPC perturbed at structure level (absent sub-messages, unset oneofs, empty/unknown names, negative and extreme numbers, invalid filters up to depth 3, inverted ranges) and at byte level (bit flips and truncation of the serialized request, kept only if it still parses; read-only RPCs and the scratch table only), optionally with a failing stream Send. bt-mix: 3 tasks from {delete+re-create table, scan, mutate, drop/create family, fetch schema, DropRowRange prefix/all} on one table plus a bystander scanning an untouched table, under the seeded scheduler. gcs-single: 10-70 HTTP requests over 25 path shapes x 7 methods x query/headers/body perturbations (truncated multipart and batch bodies, junk Content-Range, unknown upload ids, non-gzip data marked gzip), optionally with a fail-stop store error injected before the n-th store call; then a batch of 1-5 GETs whose sub-responses must equal the standalone responses. gcs-mix: listing while deleting, two chunks of one resumable upload, bucket creation while listing. Oracle: no panic, gRPC status / well-formed HTTP error (JSON body carrying the same code when it declares JSON), no deadlock/livelock/hang, afterwards valid probe requests succeed, kept data reads back unchanged and the lock map is empty; distinct = hash of (mode, request kinds, outcomes); non-trivial = every run",
+		Real:   []string{"every bttest RPC handler and validation path, every gcsemu endpoint incl. batch, multipart, range and URL parsing, both stores, all engines", "net/http request parser and mux; protobuf (un)marshalling"},
+		Stub:   []string{"gRPC and HTTP connections (a handler panic propagates to the simulator instead of killing the process / dropping the connection)", "cooperative mutexes; Store/Storage seams for yields and injected store errors"},
 		Assume: []string{"the 'no data race / unsynchronised map access' clause cannot be seen by a simulator that runs one task at a time (every hand-over is a happens-before edge); it is covered by a supplement that is runtime monitoring, not simulation, reported separately under coverage.race_supplement: concurrent request mixes on real goroutines in a go build -race binary; a report is a true race, silence proves nothing", "perturbed writes are aimed at scratch tables/buckets only; names with '..' segments or a leading '/' are never sent (neither file-backed store confines paths)"},
-		Run: runC20,
+		Run:    runC20,
 	})
 	expectedProbes["C20"] = []string{"c20.byte_level", "c20.bt_error_status", "c20.gcs_error_status", "c20.batch", "c20.table_delete_create_race", "c20.schema_change_race", "c20.drop_during_scan", "c20.list_during_delete", "c20.concurrent_chunks", "c20.opposing_copies", "c20.multi_message_scan_in_mix"}
 }
